@@ -442,8 +442,9 @@ func runC15(c *Ctx) {
 		}
 	}()
 	c.rep.Rule = "histories of 3-7 engine operations on FileSystemDataStore as both stores: ingest+Flush, flushes failed by a real os error " +
-		"(EMFILE at reservation/temp create/directory fsync, handle closed before Sync, rename in an immutable directory, a short write), merges; " +
-		"crash points = every os-call boundary of the history (all in thorough, every one for process crashes and sampled for power loss in quick); " +
+		"(EMFILE at reservation/temp create/the open of the directory fsync, EIO from fsync(2) on the directory through a per-thread seccomp filter while everything else succeeds, handle closed before Sync, rename in an immutable directory, a short write), merges; " +
+		"crash points = every os-call boundary of the history (all in thorough, every one for process crashes and sampled for power loss in quick, always right after an acknowledgement); " +
+		"what is durable follows what the os calls did (an fsync that was made to fail made nothing durable, whatever the store reported); " +
 		"power-loss outcomes = nothing-unsynced, everything-with-cut-data, and sampled (thorough: all up to 64 combinations) choices of pending entry changes x none/all/cut of unsynced bytes. " +
 		"Per probe: image within the model's crash relation, model recovery = real scan, fresh engine query: Err nil, acknowledged rows present, no invented row, no duplicate. " +
 		"Non-trivial: a probe whose image differs from the final directory of the history. Distinct by (history, k, image)."
@@ -460,6 +461,9 @@ func runC15(c *Ctx) {
 	}
 	if !immutableProbe.ok {
 		c.rep.Notes = append(c.rep.Notes, "immutable-directory faults (rename failures) not available on this platform")
+	}
+	if !fsyncFailProbe.ok {
+		c.rep.Notes = append(c.rep.Notes, "a failing fsync(2) (seccomp filter) cannot be injected on this platform; the directory fsync was only failed through the open of the directory")
 	}
 }
 
@@ -502,9 +506,13 @@ func c15History(c *Ctx, sh *shard, dir string, hi int, fixed bool) {
 			h.pendingRows = src
 			if c.chance(0.25) {
 				h.closeFault = []int{0, 3}[c.intn(2)]
+				if r.fsyncOK && c.chance(0.4) {
+					h.closeFault = 4
+				}
 			}
 			start := len(h.log)
 			_, err := eng.Merge(ctx)
+			h.closeFault = -1 // a merge that wrote nothing must not leave its fault to the next flush
 			h.hasMerge = true
 			m := c15Merge{publishPos: -1, donePos: len(h.log), srcRows: src}
 			for k := start; k < len(h.labels); k++ {
@@ -535,6 +543,9 @@ func c15History(c *Ctx, sh *shard, dir string, hi int, fixed bool) {
 			if r.immOK {
 				kinds = append(kinds, "rename")
 			}
+			if r.fsyncOK {
+				kinds = append(kinds, "dirfsync", "dirfsync")
+			}
 			fault = kinds[c.intn(len(kinds))]
 			switch fault {
 			case "reserve":
@@ -549,6 +560,8 @@ func c15History(c *Ctx, sh *shard, dir string, hi int, fixed bool) {
 				h.closeFault = 2
 			case "dirsync":
 				h.closeFault = 3
+			case "dirfsync":
+				h.closeFault = 4
 			}
 		}
 		done := make(chan error, 1)
@@ -573,6 +586,9 @@ func c15History(c *Ctx, sh *shard, dir string, hi int, fixed bool) {
 	cancel()
 	if h.boundaryBad != "" {
 		c.mismatch("c15-replica", "crash replica and real directory disagree: "+h.boundaryBad, opsDesc)
+	}
+	for _, m := range r.misreported {
+		c.mismatch("c15-os-result", fmt.Sprintf("history %d: %s", hi, m), opsDesc)
 	}
 	c.rep.TracesValidated++
 
@@ -690,7 +706,8 @@ func c15History(c *Ctx, sh *shard, dir string, hi int, fixed bool) {
 			}
 		}
 		probe(k, "proc", procImage(), true)
-		if c.thorough() || c.chance(0.35) || k == total {
+		afterAck := k > 0 && h.labels[k-1].K == "Ack"
+		if c.thorough() || c.chance(0.35) || k == total || afterAck {
 			// every outcome is judged here; the model side evaluates all of them in quick and a
 			// sample per boundary in thorough (the exhaustive enumeration is large)
 			for j, img := range powerImages(c, rep, c.thorough()) {
